@@ -149,9 +149,10 @@ theorem pmodify {f : PState → PState} {st : PState} : Post (M.modify f st) (fu
 theorem G0_congr {T : PTables} {nroot : Nat} {st st' : PState} (h : G0 T nroot st)
     (hf : st'.foreign = st.foreign) (he : st'.extracted = st.extracted) (hm : st'.macros = st.macros)
     (hv : st'.envs = st.envs) (hgl : st'.glossary = st.glossary)
-    (hi : st'.itemStack = st.itemStack) (hl : st'.langStack = st.langStack) (hr : st'.rots = st.rots) :
+    (hi : st'.itemStack = st.itemStack) (hl : st'.langStack = st.langStack) (hr : st'.rots = st.rots)
+    (hu : st'.unknowns = st.unknowns) :
     G0 T nroot st' := by
-  refine ⟨?_, ?_, ?_, ?_, ?_, ?_, ?_⟩
+  refine ⟨?_, ?_, ?_, ?_, ?_, ?_, ?_, ?_⟩
   · rw [hf, he]; exact h.flows
   · rw [hm, hv]; exact h.macros
   · rw [hv]; exact h.envs
@@ -159,6 +160,7 @@ theorem G0_congr {T : PTables} {nroot : Nat} {st st' : PState} (h : G0 T nroot s
   · rw [hi]; exact h.items
   · rw [hl]; exact h.langs
   · unfold rotOf; rw [hr]; exact h.rots
+  · rw [hu]; exact h.unk
 
 /-! ### `getTextExpanded` on the empty list (no token to take the position of) -/
 
@@ -248,7 +250,7 @@ theorem modParams_core (fuel : Nat) (IHwork : SpecWork T nroot fuel) :
     refine pbind _ pmodify ?_
     intro _ s1 hs1
     have hgood1 : Good T nroot st s1 := by
-      refine ⟨⟨⟨?_, ?_, ?_, ?_, ?_, ?_, ?_⟩, ?_, ?_⟩, ?_, ?_⟩ <;> rw [hs1]
+      refine ⟨⟨⟨?_, ?_, ?_, ?_, ?_, ?_, ?_, ?_⟩, ?_, ?_⟩, ?_, ?_⟩ <;> rw [hs1]
       · exact hg.flows
       · intro m hmem
         rcases List.mem_append.1 hmem with h | h
@@ -266,6 +268,7 @@ theorem modParams_core (fuel : Nat) (IHwork : SpecWork T nroot fuel) :
       · exact hg.items
       · exact hg.langs
       · exact hg.rots
+      · exact hg.unk
       · exact hg.root
       · exact hg.inFrame
     clear hs1
@@ -328,7 +331,7 @@ theorem init_core (P : ModuleDef → Prop) (fuel : Nat)
         intro _ s1 hs1
         refine hjp s1 ?_
         rw [hs1]
-        exact Good_trans hgood ⟨⟨G0_congr hgood.1.toG0 rfl rfl rfl rfl rfl rfl rfl rfl, hgood.1.root, hgood.1.inFrame⟩, rfl, rfl⟩
+        exact Good_trans hgood ⟨⟨G0_congr hgood.1.toG0 rfl rfl rfl rfl rfl rfl rfl rfl rfl, hgood.1.root, hgood.1.inFrame⟩, rfl, rfl⟩
       · exact hjp s hgood
 theorem findModule_mem {cls : Bool} {name : Str} {m : ModuleDef} (h : findModule T cls name = some m) :
     m ∈ T.packageModules ++ T.classModules := by
@@ -378,7 +381,7 @@ theorem work_step (hw : T.WFInv) (nroot fuel : Nat) (IH : AllSpecs T nroot fuel)
   have hn2 : s2.nest = st.nest + 1 := by rw [hs2]
   have hG2 : G T nroot s2 := by
     refine ⟨G0_congr hg (by rw [hs2]) (by rw [hs2]) (by rw [hs2]) (by rw [hs2]) (by rw [hs2])
-      (by rw [hs2]) (by rw [hs2]) (by rw [hs2]), ?_, ?_⟩
+      (by rw [hs2]) (by rw [hs2]) (by rw [hs2]) (by rw [hs2]), ?_, ?_⟩
     · rw [hn2, hl2]; intro h; exact h0 (by omega)
     · rw [hn2]; omega
   clear hs2
@@ -407,7 +410,7 @@ theorem work_step (hw : T.WFInv) (nroot fuel : Nat) (IH : AllSpecs T nroot fuel)
     refine pbind _ pmodify ?_
     intro _ s5 hs5
     refine ppure ⟨?_, ⟨?_, ?_⟩, ?_⟩
-    · rw [hs5]; exact G0_congr g4.1.toG0 rfl rfl rfl rfl rfl rfl rfl rfl
+    · rw [hs5]; exact G0_congr g4.1.toG0 rfl rfl rfl rfl rfl rfl rfl rfl rfl
     · rw [hs5]
     · rw [hs5]; show s4.nest - 1 = st.nest; rw [g4.2.2, hgood3.2.2, hn2]; omega
     · have := ho rfl; rw [hl3] at this; exact this
